@@ -6,6 +6,8 @@ cfg = json.load(open(os.path.join(V, "harness/checks.json")))
 for p in sorted(glob.glob(os.path.join(V, "harness/checks.d/*.json"))):
     cfg.update(json.load(open(p)))
 
+HOOK_COMMITS = ["696fb8d", "b18b87d", "17e7999", "f46fb1d", "0343457"]
+
 T = {
  "C01": ("vexec", "runtime monitoring: full read-out before Close vs after Open + reference-model oracle over generated histories",
   "Directed templates for every ordering the property singles out (write after snapshot, delete→compact, compress, nil arguments, re-add→vacuum, singles→batch, drop→re-create, import+commit, edge history, evolve/reinforce, config updates, delete cascade) on all valid metric×precision combinations plus thousands of seeded random histories with 1–6 restart cycles; at each restart the complete public read-out before Close must equal the one after Open and the reference model, and the engine must stay usable. Held on the executions observed.",
@@ -13,6 +15,9 @@ T = {
  "C05": ("vexec", "runtime monitoring: planted rejections + full read-out equality + reference-model oracle",
   "Calls that must be rejected (22 classes covering every failure cause named in the property, alone and as an item of a batch/import) are planted at random positions of generated histories; a rejected call must leave the complete public read-out identical, the index usable, and — after further history and a restart — the state equal to the model in which the call never happened. Held on the executions observed.",
   "Which calls must be rejected is predicted by harness/vexec; a call is 'rejected' iff it returns a non-nil error."),
+ "C06": ("vexec", "runtime monitoring: universal-negative result oracle over model-checked index states + race-detector run with concurrent writers/maintenance",
+  "Index contents are produced by random operation histories (adds, batches, imports, deletes, re-adds, merges, evolve, vacuum, refine, compress, snapshot, compaction, restart) whose state is first compared with the reference model; then every index is queried through VSearch, VSearchGraph, VSearchWithScores, VFilter and text/hybrid search with generated queries, k, efSearch, filters and graph scopes. Every returned id must be live in the model, in the queried index, satisfy the reference filter evaluator, lie in the reference BFS scope, be unique, at most k, in non-increasing score order, and every score is recomputed from the stored vector / metadata. A second part repeats the membership / uniqueness / filter assertions under the race detector while writers, deleters, vacuum and refine run. Held on the executions observed.",
+  "Completeness of the approximate search is not demanded (C07). Score tolerance per precision: 2e-4 float32, 1e-2 float16, 6e-2 int8 on the similarity 1/(1+d)."),
  "C10": ("vexec", "runtime monitoring: exhaustive short operation sequences + random engine histories against an edge-version reference model",
   "The in-memory edge store is driven through ALL operation sequences up to length 3 (quick) / 4 (thorough) over a 39-letter alphabet with explicit timestamps and compared view by view with a version model (exhaustive over that bounded space); beyond it, random link/unlink/vacuum histories through the engine API with snapshot, compaction and plain restarts are compared at time 0 and at every history boundary. Exploration with an exhaustively enumerated core; held on what was enumerated/observed.",
   "Incoming view = the engine-observable (hydrated) one, see DESIGN.md C10 scope note. Engine timestamps are clock-bracketed and bound by read-back."),
@@ -74,7 +79,7 @@ def main():
             "guard": "verif",
             "enable": "go test -c -tags verif -overlay build/overlay.json -modfile build/repo.mod (done by ./check; Go build tag `verif` switches pkg/verifhook from no-op to live)",
             "baseline_off_cmd": "/verif/tools/baseline.sh /repo",
-            "source_commits": ["696fb8d", "b18b87d", "17e7999"],
+            "source_commits": HOOK_COMMITS,
             "add_only": True,
         },
         "engines": [
